@@ -462,7 +462,11 @@ def m_C12(v):
             if int(g["nrw"]) >= 2 ** 31 or int(g["tg"]) >= 2 ** 31:
                 out.append((i, "C12 counter wrapped around"))
         if v.kind[i] == "call" and v.R[i]["st"] == "panic" and v.call[i]["ep"] in ("blacklist", "unblacklist", "refundUsers", "addTicketsV1", "addTicketsV2"):
-            out.append((i, f"C12 reserve accounting overflow/underflow in {v.call[i]['ep']} (wraps in the deployed build)"))
+            # the only other checked-arithmetic site these endpoints can reach is the tickets view of an
+            # empty (zero-size) range, which the dump shows as tix=panic: not reserve accounting
+            pd = v.prev_dump(i)
+            if pd and not any(d.get("tix") == "panic" for d in pd[1].values()):
+                out.append((i, f"C12 reserve accounting overflow/underflow in {v.call[i]['ep']} (wraps in the deployed build)"))
     return out
 
 
@@ -795,10 +799,21 @@ OWNER_ONLY = {"addTickets", "addTicketsV1", "addTicketsV2", "deposit", "setTicke
 EXTENDED = {"blacklist", "refundUsers", "unblacklist", "issueSft", "createSfts", "setTransferRole"}
 
 
+OWNER_ONLY_ABI = {"addTickets", "depositLaunchpadTokens", "setTicketPrice", "setLaunchpadTokensPerWinningTicket",
+                  "setConfirmationPeriodStartRound", "setWinnerSelectionStartRound", "setClaimStartRound",
+                  "setSupportAddress", "pause", "unpause", "claimTicketPayment", "setUnlockSchedule", "setNftCost"}
+
+
 def m_C15(v):
     """privileged endpoints accept only their intended callers"""
     out = []
     owner = None
+    for i, (line, impl, _m) in enumerate(v.ops):
+        if line.startswith("abi") and impl.startswith("A "):
+            for item in impl[2:].split():
+                name, oo, pay = item.split(":")
+                if name in OWNER_ONLY_ABI and oo != "1":
+                    out.append((i, f"C15 endpoint {name} is not annotated owner-only in the contract ABI"))
     for i, k in enumerate(v.kind):
         if k == "deploy":
             owner = int(v.ops[i][0].split()[2])
